@@ -249,9 +249,11 @@ class StopLoop(Exception):
 
 def make_client(reg, log):
     """reg: dict(dec_a, dec_b, on_a, catch, on_catch, empty) — builds the registry through the public API"""
-    def mk(tag, response=None):
+    def mk(tag, response=None, raising=False):
         def handler(task):
             log.append((tag, len(state["served"]) - 1))
+            if raising:
+                raise RuntimeError("handler %s failed" % tag)  # a failing handler must not keep the other handlers from the task
             return response
         handler.__symx_model__ = True
         handler.tag = tag
@@ -270,7 +272,7 @@ def make_client(reg, log):
     cl = call(cls)
     expected = {4: [], 5: [], -1: [], None: []}
     for i in range(reg["dec_a"]):
-        h = mk("a%d" % i, response=(32, b"out") if i == 0 else None)
+        h = mk("a%d" % i, response=(32, b"out") if i == 0 else None, raising=bool(reg.get("raising")) and i == 0)
         if i == 0:
             call(call(I.getattr(cl, "handle"), CMD_A), h)  # enum member
         else:
@@ -281,7 +283,7 @@ def make_client(reg, log):
         call(I.getattr(cl, "register_task"), 5, h)
         expected[5].append(h.tag)
     for i in range(reg["catch"]):
-        h = mk("c%d" % i)
+        h = mk("c%d" % i, raising=bool(reg.get("raising")) and i == 0)
         call(call(I.getattr(cl, "catch_all")), h)
         expected[-1].append(h.tag)
     for i in range(reg["empty"]):
@@ -357,7 +359,7 @@ def h_dispatch(reg, ntasks, domain):
             want = expected_for(expected, key)
             got = sorted(t for t, k in log if k == i)
             ctx.prove(got == want, "task %d (command %s) of %r: handlers invoked %r, registered %r" % (i, key, [x for x in cmds], got, want))
-            want_sent = 1 if (key == 4 and reg["dec_a"]) else 0
+            want_sent = 1 if (key == 4 and reg["dec_a"] and not reg.get("raising")) else 0
             ctx.prove(len([1 for s in sent if s[2] == i]) == want_sent, "task %d: each handler response is sent back exactly once" % i)
     return body
 
@@ -387,6 +389,11 @@ def instances(tier):
             continue
         out.append(Instance("dispatch %s tasks<=%d" % (",".join("%s=%d" % kv for kv in reg.items()), n), h_dispatch(reg, n, DOMAIN),
                             dict(kind="dispatch", registry=reg, tasks=n, domain=list(DOMAIN), cost=5 ** n)))
+    # a handler that raises: the remaining handlers of the task (and the following tasks) are still served exactly once
+    for dec_a, on_a, catch, on_catch in ((2, 0, 0, 0), (1, 1, 0, 0), (2, 1, 2, 0), (0, 0, 2, 1)) if q else itertools.product((0, 1, 2), (0, 1), (0, 2), (0, 1)):
+        reg = dict(dec_a=dec_a, dec_b=1, on_a=on_a, catch=catch, on_catch=on_catch, empty=0, raising=1)
+        out.append(Instance("dispatch with a raising handler %s tasks<=2" % ",".join("%s=%d" % kv for kv in reg.items()), h_dispatch(reg, 2, DOMAIN),
+                            dict(kind="dispatch_raising", registry=reg, tasks=2, domain=list(DOMAIN), cost=25)))
     for reg in (regs[0], dict(dec_a=1, dec_b=1, on_a=1, catch=1, on_catch=1, empty=1), dict(dec_a=0, dec_b=0, on_a=0, catch=2, on_catch=0, empty=0)):
         out.append(Instance("dispatch any known command %s" % ",".join("%s=%d" % kv for kv in reg.items()), h_dispatch(reg, 1, None),
                             dict(kind="dispatch_all", registry=reg, cost=100)))
